@@ -4,6 +4,7 @@ import Driver.Schedule
 import Driver.Table
 import Driver.Extract
 import Driver.Sexp
+import Driver.Pool
 open Driver
 
 structure St where
@@ -21,6 +22,7 @@ def dispatch (s : St) (line : String) : St × String :=
   | "tb" :: rest => let (p, o) := tbStep s.tb rest; ({ s with tb := p }, o)
   | "ex" :: rest => let (p, o) := exStep s.ex rest; ({ s with ex := p }, o)
   | "sx" :: rest => (s, sxStep rest)
+  | "pool" :: rest => (s, poolStep rest)
   | _ => (s, "bad-op")
 
 partial def loop (h : IO.FS.Stream) (out : IO.FS.Stream) (s : St) : IO Unit := do
